@@ -81,6 +81,11 @@ CHECKS = {
          "A scripted matrix (renewal option-82 shape x RELEASE/DECLINE/expiry x 5 pool configurations) plus 300 (quick) / 6000 (thorough) seeded histories of direct and relayed clients; after every step every client is probed with DISCOVER/REQUEST frames (untagged, 802.1Q, QinQ, option 53 at several offsets, broadcast flag, ciaddr, IP options, short/long option areas, relayed with its circuit-id, huge kernel clock): a TX reply must be a well-formed Ethernet/IPv4/UDP/BOOTP frame (checksum, lengths, xid, chaddr, OFFER/ACK) carrying userspace's yiaddr, server id, mask, router, DNS and lease time; a PASS must be byte-identical; a client without a current binding must not be answered under any key it was cached under.",
          "Trusted: the independent reply parser; the native shim (cross-checked against the kernel run on every transmitted reply). The fast path is not required to answer, only to answer correctly; the VLAN-pair cache is never written by the slow path and is exercised only as a probe key.",
          "DESIGN.md §5 C03"),
+ "C13": ("c13_hasync", "exploration",
+         "history monitor with unique op ids: layer A drives the real PushChange/handleGetSessions/performFullSync/handleSSEData exhaustively in memory; layer B runs a real active and standby HASyncer over loopback HTTP/SSE through a harness-owned reverse proxy that gates, delays and cuts the snapshot GET and the stream, under the Go race detector; losses are decided by FIFO sentinels, never by a clock",
+         "(i) after every completed full sync the standby's store and received-session map equal the snapshot body the active actually served; (ii) for every connected interval the applied op ids are exactly the pushes that returned inside it, in push order (lost / reordered / duplicated / never-pushed classes named from the wire log); (iii) at every settle point (link up, sentinel applied) the tables are equal, each difference attributed to its last change. Layer A: exhaustive up to session renaming at (depth, ids) (6,2),(5,3),(4,4) quick / (8,2),(7,3),(6,4) thorough in immediate and one-step-lag delivery, plus random walks with failed GETs; layer B: 72 / 1000 scenarios with bursts to 1200, stalled links, clean and aborted cuts.",
+         "Trusted: the push/store/wire logs stamped from one counter; FIFO of the client channel and the HTTP stream. One standby; TLS mode not driven.",
+         "DESIGN.md §5 C13"),
 }
 
 REASON_TODO = "check not yet built in this revision of /verif (planned in DESIGN.md §5); nothing is claimed for it"
